@@ -228,6 +228,36 @@ func init() {
 				}
 			}
 		}
+		// very wide single roots with the massive option (stages that split a root's children among helpers): every child
+		// keeps its connector, also when the count is not a round number
+		for _, k := range []int{9, 10, 11, 64, 99, 100, 101, 109, 137, 250, 1001} {
+			if !c.Take() || c.Expired() {
+				continue
+			}
+			d, names := []int{1}, []string{"r"}
+			for j := 0; j < k; j++ {
+				d = append(d, 2)
+				names = append(names, fmt.Sprintf("c%04d", j))
+				if j%50 == 7 {
+					d = append(d, 3)
+					names = append(names, "g")
+				}
+			}
+			doc := enum.Spell(d, names, c01Spellings[0])
+			want := model.Render(model.Merge(enum.Build(d, names)), model.DefaultFmt)
+			c.StateN(1)
+			c.Inc("size_family_cases")
+			for _, mode := range []string{"massive", "massive-nil"} {
+				var got string
+				var err error
+				pan := guardMaybeMassive(true, func() { got, err, _ = sut.Output(doc, extraOpts(mode, "")...) })
+				c.Eval()
+				if pan != "" || err != nil || got != want {
+					c.Violation("C01|wrong-drawing|massive-wide-root", fmt.Sprintf("single root with %d children, %s: err=%v panic=%q; first differing line: %s", k, mode, err, pan, firstDiffLine(got, want)), k, nil)
+				}
+			}
+			c01One(c, d, names, c01Spellings[1], fmtTuples[1])
+		}
 		// Part 1d: documents whose total size crosses typical buffer sizes, with a root line starting exactly at, just
 		// before and just after the boundary (simple mode; the massive counterpart is C10's bigdoc part)
 		for _, B := range []int{512, 4096, 65536, 1 << 20} {
@@ -282,6 +312,22 @@ func init() {
 			})
 		}
 	}
+}
+
+func firstDiffLine(got, want string) string {
+	g, w := strings.Split(got, "\n"), strings.Split(want, "\n")
+	for i := range w {
+		if i >= len(g) {
+			return fmt.Sprintf("line %d missing, want %q", i+1, w[i])
+		}
+		if g[i] != w[i] {
+			return fmt.Sprintf("line %d: got %q, want %q", i+1, g[i], w[i])
+		}
+	}
+	if len(g) > len(w) {
+		return fmt.Sprintf("%d extra lines", len(g)-len(w))
+	}
+	return "(none)"
 }
 
 func init() {
